@@ -617,3 +617,28 @@ def check_block_offsets(db, funcs, rep, rule):
                           (sb.name, unparse(e)[:60], iv[1] if iv else "?", alloc.name, unparse(alloc.args()[0])[:50], size,
                            " (loop index ranges: %s)" % env if env else ""), line=x.line)
     return n
+
+
+def check_exact_name_lookup(f, rep, rule, consequence):
+    """every return of a found object in lookup function f lies where strcmp (<its name>, <requested name>) == 0 is known."""
+    from flow import Facts
+    fc = Facts(f)
+    rets = [r for r in f.walk() if r.k == "ReturnStmt" and r.c and r.c[0] is not None and strip_casts(r.c[0]).v is None
+            and strip_casts(r.c[0]).k != "CallExpr"]                 # delegation to another lookup (no name given) is not a match
+    if not rets:
+        raise AnalysisBroken("%s: no return of a found object" % f.name)
+    for r in rets:
+        exact = False
+        how = []
+        for c in fc.conds(r):
+            if c[0] == "switch":
+                continue
+            n, pol = c
+            for e in n.walk():
+                if e.k == "CallExpr":
+                    how.append(e.name)
+                    if e.name == "strcmp" and pol is False:
+                        exact = True
+        rep.check(exact, rule, where(f), "return@%s" % r.line, "an object is returned only where strcmp (...) == 0",
+                  "%s returns an object without an exact comparison of the whole name (comparisons on the path: %s): %s" % (f.name, how, consequence), line=r.line)
+    return len(rets)
